@@ -3,6 +3,7 @@ package linter
 import (
 	"fmt"
 	"net"
+	"strconv"
 
 	"github.com/ysugimoto/falco/v2/ast"
 	"github.com/ysugimoto/falco/v2/linter/context"
@@ -28,7 +29,8 @@ func (l *Linter) lintAclDeclaration(decl *ast.AclDeclaration, ctx *context.Conte
 		}
 
 		// Otherwise, validate as CIDR
-		c += "/" + cidr.Mask.String()
+		// (the mask's value, not its rendering: String() also renders the comments attached to it)
+		c += "/" + strconv.FormatInt(cidr.Mask.Value, 10)
 		if _, _, err := net.ParseCIDR(c); err != nil {
 			l.Error(InvalidValue(cidr.GetMeta(), "CIDR", c).Match(ACL_SYNTAX))
 		}
